@@ -13,7 +13,7 @@ RULE = ('a genome of 1..4 contigs (with and without names containing "_", keep-a
         'name) as the sequence of contig groups (1..3 entries each, ids unique) x chunkings of the entries (one chunk, '
         'one entry per chunk, random cuts; all 2^(m-1) cuts for selected sequences). Three routes per data set: '
         'Genome.get_intervals/get_track/read_intervals(stream) under bnp.compute (get_data, start/stop, pileup sum), '
-        'MultiStream attribute / zip first and second slot / get_contingency_table+forbes+jaccard — each with the data as a chunk '
+        'MultiStream attribute / zip first, second and third slot / get_contingency_table+forbes+jaccard — each with the data as a chunk '
         'stream AND as one table held in memory —, left_join over groupby. '
         'Every data class also with the contig names held as integer codes of a StringEncoding (label order = genome order, '
         'reversed, non-genome names first) next to plain text; sessions with two genomes alive (g2 = g.with_ignored_added(0..2 '
@@ -22,7 +22,7 @@ RULE = ('a genome of 1..4 contigs (with and without names containing "_", keep-a
 EXHAUSTIVE = {'quick': False, 'thorough': False}
 TIE = ('translator+correspondence: translate/gen_c12.py regenerates the decision rules (ignored/included, walked order, '
        '_included_groups skip/raise/yield, iter_chromosomes sort-order and left-over tests and their position before the '
-       'yield, SynchedStream guards and skipping loop, left_join tests, group boundary = inequality of whole adjacent keys, '
+       'yield, SynchedStream guards (_check_name), skipping loop, loop shape (_with_following pairs; the following group through the same guards before `yield data`), left_join tests, group boundary = inequality of whole adjacent keys, '
        'fast path, join key, get_data argument order) into Gen/C12.v; Bridge/C12.v proves them equal to the named rules of '
        'Model/C12.v and that the model\'s state machines step by those rules; the generators, consumers and the chunked '
        'groupby are additionally evaluated inside Coq on every case (correspondence)')
@@ -40,10 +40,10 @@ ASSUMPTIONS = ['entries of one contig are contiguous in the data (the property\'
                '(C12_source_tie); C12_machine_* prove the pull depths (pull_all / pull_n) from it']
 PARTIAL = ['C12_genome_partial: with the pre-fix chromosome_order() exactness needs that no included contig name contains "_" '
            '(history; /repo HEAD has the fix: C12_head_genome_end_to_end is unguarded)',
-           'C12_zip_second_partial / C12_head_multistream_end_to_end / C12_model_ok_implies_spec_ok_multistream_partial: the '
-           'SECOND stream of zip(ms.a, ms.b, ms.lengths) (forbes/jaccard) is exact for order-compatible data; for data that must '
-           'raise it can complete silently (C12_zip_second_refuted; known finding C12-multistream-second-stream-unchecked) — '
-           'never with an entry under another contig (C12_zip_second_never_misattributes)']
+           'C12_zip_second_partial / C12_zip_second_refuted / C12_pinned_multistream_end_to_end: the code BEFORE notes/C12.fix-4.diff '
+           '(history): the second stream of zip(ms.a, ms.b, ms.lengths) was exact only for order-compatible data; /repo HEAD has '
+           'the fix: C12_multistream_every_consumer_exact, C12_zip_second_exact, C12_zip_every_stream_exact, '
+           'C12_head_multistream_end_to_end and C12_model_ok_implies_spec_ok_multistream are unguarded (at least one contig)']
 PER_FILE = 40
 L = 40                      # common contig size
 UNKNOWN = 'chrU'
@@ -497,7 +497,14 @@ def observe(case):
                 res.append([int(v) for v in x.start.tolist()])
             return res
         out['mslist'] = [_try(mslist), agree(_try(zipfirst), lambda f: f(sizes, iv_stream(), ref()), 'with the stream as first argument')]
-        out['mszip'] = [_try(mszip)]
+        def mszip_third():        # the stream in THIRD position of a four-way zip over MultiStream attributes
+            ms = MultiStream(sizes, a=ref(), b=ref(), c=iv_stream())
+            res = []
+            for j, (x, y, z, l) in enumerate(zip(ms.a, ms.b, ms.c, ms.lengths)):
+                assert x.start.tolist() == [L - 1 - j] and y.start.tolist() == [L - 1 - j] and l == L
+                res.append([int(v) for v in z.start.tolist()])
+            return res
+        out['mszip'] = [_try(mszip), _try(mszip_third)]
         zf = _try(zipfirst_tab)
         out['mslist_tab'] = [_try(mslist_tab), agree(zf, lambda f: f(sizes, table(), ref()), 'with the table as first argument')]
         out['mszip_tab'] = [_try(mszip_tab)]
@@ -617,50 +624,11 @@ def _failing(case, o):
     return sorted(set(bad))
 
 
-def _synched_yields(order, groups):
-    """what SynchedStream.__iter__ (code at HEAD) yields before it stops or raises: (tables, error code or None)"""
-    out, seen, idx = [], set(), 0
-    for name, ids in groups:
-        if name in seen:
-            return out, 4
-        if name not in order:
-            return out, 5
-        while idx < len(order) and order[idx] != name:
-            out.append([])
-            seen.add(order[idx])
-            idx += 1
-        out.append(list(ids))
-        seen.add(order[idx])
-        idx += 1
-    out += [[] for _ in order[idx:]]
-    return out, None
-
-
 def finding(case, o):
-    """id of the known finding whose EXACT failure mode this case shows, else None.  The only listed finding is
-    C12-multistream-second-stream-unchecked: MultiStream route, data that must raise, the attribute run to its end does
-    raise (with the code the walk produces), and the zip's second stream / the contingency table complete with exactly the
-    first len(contigs) tables that walk yields — anything else (other tables, other counts, another error) is NOT it."""
-    bad = _failing(case, o)
-    if not bad or case['route'] != 1 or _expected(case) is not None:
-        return None
-    if not set(bad) <= {('mszip', 'silent'), ('ct', 'silent'), ('mszip_tab', 'silent'), ('ct_tab', 'silent')}:
-        return None
-    n = len(case['genome'])
-    ys, err = _synched_yields(case['genome'], case['groups'])
-    if err is None or len(ys) < n:
-        return None                     # the walk raises before the n-th yield: a silent completion is not this finding
-    first = ys[:n]
-    if o.get('mslist') != [dict(err=err), dict(err=err)]:
-        return None
-    if o.get('mszip') != [dict(done=first)] or o.get('ct') != [dict(done=[n, sum(len(t) for t in first)])]:
-        return None
-    # the same data as one table in memory takes the same path (one-chunk stream): same outcome, slot by slot
-    if o.get('mslist_tab') != [dict(err=err), dict(err=err)]:
-        return None
-    if o.get('mszip_tab') != [dict(done=first)] or o.get('ct_tab') != [dict(done=[n, sum(len(t) for t in first)])]:
-        return None
-    return 'C12-multistream-second-stream-unchecked'
+    """No finding of C12 is open: the former C12-multistream-second-stream-unchecked (second stream of a zip truncated
+    silently) is repaired by notes/C12.fix-4.diff and its input class is generated as ordinary cases, so every failing
+    case is a VIOLATION."""
+    return None
 
 
 def signature(case, o):
